@@ -163,6 +163,8 @@ def instances(tier):
     for sid, shape in curated().items():
         out.append(Instance("C01", "sys_common:s_run", dict(shape=shape, oracle="c01"), name="S/" + sid, uf=True,
                             cover=["solved"], weight=20, max_paths=3000))
+    from . import xval
+    out += xval.instances("C01", tier)
     if tier == "thorough":
         for sid, shape in pair_cover().items():
             out.append(Instance("C01", "sys_common:s_run", dict(shape=shape, oracle="c01"), name="S/pair/" + sid, uf=True,
